@@ -30,4 +30,107 @@ theorem simplify_expand (md : Nat) : ∀ (fuel : Nat) (sub : List String) (o : O
           rw [h2]
       · exact ⟨[], by simp [expand]⟩
 
+/-! ## the token reader undoes the token writer -/
+
+/-- the next token cannot start a message field -/
+def Stops (rest : List Tok) : Prop := ∀ k t, rest ≠ .ident k :: t
+
+theorem pFields_stop (f : Nat) (rest : List Tok) (h : Stops rest) : pFields (f + 1) rest = some ([], rest) := by
+  unfold pFields
+  split
+  · rename_i k v r; exact absurd rfl (h k _)
+  · rename_i k r; exact absurd rfl (h k _)
+  · rename_i k r; exact absurd rfl (h k _)
+  · rfl
+
+theorem stops_rbrace (t : List Tok) : Stops (.rbrace :: t) := by intro k t' h; cases h
+theorem stops_nil : Stops [] := by intro k t' h; cases h
+
+mutual
+theorem pFields_msgToks : ∀ (kids : List Opt), wfKids kids = true → ∀ (rest : List Tok) (fuel : Nat),
+    Stops rest → szKids kids ≤ fuel → pFields fuel (msgToks kids ++ rest) = some (normKids kids, rest)
+  | [], _, rest, fuel, hs, hf => by
+    simp only [szKids] at hf
+    obtain ⟨f, rfl⟩ : ∃ f, fuel = f + 1 := ⟨fuel - 1, by omega⟩
+    simp only [msgToks, List.nil_append, normKids]
+    exact pFields_stop f rest hs
+  | .scalar k v :: r, hw, rest, fuel, hs, hf => by
+    simp only [szKids] at hf
+    simp only [wfKids] at hw
+    obtain ⟨f, rfl⟩ : ∃ f, fuel = f + 1 := ⟨fuel - 1, by omega⟩
+    simp only [msgToks, List.cons_append, normKids]
+    unfold pFields
+    simp only []
+    rw [pFields_msgToks r hw rest f hs (by omega)]
+    rfl
+  | .msg k ks :: r, hw, rest, fuel, hs, hf => by
+    simp only [szKids] at hf
+    simp only [wfKids, Bool.and_eq_true] at hw
+    obtain ⟨f, rfl⟩ : ∃ f, fuel = f + 1 := ⟨fuel - 1, by omega⟩
+    simp only [msgToks, List.cons_append, List.append_assoc, normKids]
+    unfold pFields
+    simp only []
+    rw [pFields_msgToks ks hw.1 (.rbrace :: (msgToks r ++ rest)) f (stops_rbrace _) (by omega)]
+    simp only []
+    rw [pFields_msgToks r hw.2 rest f hs (by omega)]
+    rfl
+  | .arr k ks :: r, hw, rest, fuel, hs, hf => by
+    simp only [szKids] at hf
+    simp only [wfKids, Bool.and_eq_true] at hw
+    obtain ⟨f, rfl⟩ : ∃ f, fuel = f + 1 := ⟨fuel - 1, by omega⟩
+    simp only [msgToks, List.cons_append, List.append_assoc, normKids]
+    unfold pFields
+    simp only []
+    rw [pElems_arrToks ks hw.1 (msgToks r ++ rest) f (by omega)]
+    simp only []
+    rw [pFields_msgToks r hw.2 rest f hs (by omega)]
+    rfl
+
+theorem pElems_arrToks : ∀ (kids : List Opt), wfElems kids = true → ∀ (rest : List Tok) (fuel : Nat),
+    szElems kids ≤ fuel → pElems fuel (arrToks kids ++ .rbrack :: rest) = some (normElems kids, .rbrack :: rest)
+  | [], _, rest, fuel, hf => by
+    simp only [szElems] at hf
+    obtain ⟨f, rfl⟩ : ∃ f, fuel = f + 1 := ⟨fuel - 1, by omega⟩
+    simp only [arrToks, List.nil_append, normElems]
+    unfold pElems
+    rfl
+  | [.scalar k v], _, rest, fuel, hf => by
+    simp only [szElems] at hf
+    obtain ⟨f, rfl⟩ : ∃ f, fuel = f + 1 := ⟨fuel - 1, by omega⟩
+    simp only [arrToks, List.cons_append, List.nil_append, normElems]
+    unfold pElems
+    rfl
+  | .scalar k v :: x :: r, hw, rest, fuel, hf => by
+    simp only [szElems] at hf
+    simp only [wfElems] at hw
+    obtain ⟨f, rfl⟩ : ∃ f, fuel = f + 1 := ⟨fuel - 1, by omega⟩
+    have ih := pElems_arrToks (x :: r) hw rest f (by omega)
+    simp only [arrToks, List.cons_append, normElems] at ih ⊢
+    unfold pElems
+    simp only []
+    rw [ih]
+    rfl
+  | [.msg k ks], hw, rest, fuel, hf => by
+    simp only [szElems] at hf
+    simp only [wfElems, Bool.and_eq_true] at hw
+    obtain ⟨f, rfl⟩ : ∃ f, fuel = f + 1 := ⟨fuel - 1, by omega⟩
+    simp only [arrToks, List.cons_append, List.append_assoc, List.nil_append, normElems]
+    unfold pElems
+    simp only []
+    rw [pFields_msgToks ks hw.1 (.rbrace :: .rbrack :: rest) f (stops_rbrace _) (by omega)]
+  | .msg k ks :: x :: r, hw, rest, fuel, hf => by
+    simp only [szElems] at hf
+    simp only [wfElems, Bool.and_eq_true] at hw
+    obtain ⟨f, rfl⟩ : ∃ f, fuel = f + 1 := ⟨fuel - 1, by omega⟩
+    have ih := pElems_arrToks (x :: r) hw.2 rest f (by omega)
+    simp only [arrToks, List.cons_append, List.append_assoc, normElems] at ih ⊢
+    unfold pElems
+    simp only []
+    rw [pFields_msgToks ks hw.1 _ f (stops_rbrace _) (by omega)]
+    simp only []
+    rw [ih]
+    rfl
+  | .arr _ _ :: _, hw, _, _, _ => by simp [wfElems] at hw
+end
+
 end J5V.Print.OptionText
